@@ -92,6 +92,14 @@ reg('C13',
     'MuJoCo compiles and evaluates both documents; tolerances are those of the fuser\'s six-decimal printing',
     'DESIGN.md section 4 C13')
 
+reg('C14',
+    'property-based testing (Hypothesis model generator + fault/feature injection at a generated element): reject/accept oracle for every native pipeline init, structural differential against the spec and MuJoCo qpos0 pose',
+    'No counter-example: each of 19 unsupported-feature injections (integrators, elliptic cone, wind, ellipsoid fluid, impratio, site/tendon transmission, affine gain, joint ref, '
+    'ball joints alone/limited/stacked, free-joint stiffness, solmix, priority, colliding cylinder, mismatched stack anchors), placed at a generated eligible element of a generated '
+    'model, makes loads or init of generalized, spring and positional raise (traced init always, eager init on a subsample); every clean model is accepted and its sizes, link '
+    'types, parent order, names, actuator indices, dof maps, init_q and initial pose agree with the document. Sampling, not proof.',
+    'MuJoCo must itself compile every injected document; eval_shape(init) stands for jitted init', 'DESIGN.md section 4 C14')
+
 PENDING = {}
 
 
